@@ -383,13 +383,15 @@ class NDCubeSequenceBase:
             # corresponding to the input world corners.
             if isinstance(wcs, str):
                 wcs = getattr(cube, wcs)
+            # Keep length-1 dimensions so that every entry of the item is a slice with a start and a stop.
             if crop_by_values:
-                item = cube._get_crop_by_values_item(*points, units=units, wcs=wcs)
+                item = cube._get_crop_by_values_item(*points, units=units, wcs=wcs, keepdims=True)
             else:
-                item = cube._get_crop_item(*points, wcs=wcs)
+                item = cube._get_crop_item(*points, wcs=wcs, keepdims=True)
             for j, s in enumerate(item):
-                starts[i, j] = s.start
-                stops[i, j] = s.stop
+                # Axes not constrained by the points are kept whole.
+                starts[i, j] = 0 if s.start is None else s.start
+                stops[i, j] = cube.data.shape[j] if s.stop is None else s.stop
         # Construct the item with which to slice the sequence from the min and max
         # rangge of array indices determined above from all cubes.
         starts = starts.min(axis=0)
